@@ -141,8 +141,30 @@ Variants ==
              ELSE {}) \cup
             {[cls |-> "length-varint-not-minimal", stream |-> <<128 + (n % 128)>> \o (IF n < 128 THEN <<0>> ELSE <<128 + (n \div 128), 0>>) \o b.body]}))
 
+\* Declared lengths at the 31 / 32 bit boundaries (a decoder that takes the length for a signed or a
+\* native integer): 2^31-1, 2^31, 2^32-1 and the top bit flipped in an otherwise valid stream.  No frame body
+\* is that long, the content never matches: an error is REQUIRED - not a crash.  A decoder may allocate what
+\* the prefix says before it finds out, so these exist for ONE small base stream per algorithm only.
+HugeBase == IF Alg = "lz4" THEN e1 = [ll |-> 1, off |-> 1, ml |-> 4] /\ e2.ll < 0 /\ e3 = 12
+            ELSE e1 = [t |-> "lit", n |-> 1, form |-> "min", seed |-> 1] /\ e2 = [t |-> "lit", n |-> 3, form |-> "min", seed |-> 4]
+                 /\ e3 = [t |-> "none"]
+HugeVariants ==
+  IF ~HugeBase THEN {}
+  ELSE LET b == Base
+           n == Len(b.out)
+       IN IF Alg = "lz4"
+          THEN {[cls |-> "length-prefix-huge-2^31-1", stream |-> <<127, 255, 255, 255>> \o b.body],
+                [cls |-> "length-prefix-huge-2^31", stream |-> <<128, 0, 0, 0>> \o b.body],
+                [cls |-> "length-prefix-huge-2^32-1", stream |-> <<255, 255, 255, 255>> \o b.body],
+                [cls |-> "length-prefix-huge-top-bit-flipped", stream |-> <<128 + B(n, 3), B(n, 2), B(n, 1), B(n, 0)>> \o b.body]}
+          ELSE {[cls |-> "length-prefix-huge-2^31-1", stream |-> <<255, 255, 255, 255, 7>> \o b.body],
+                [cls |-> "length-prefix-huge-2^31", stream |-> <<128, 128, 128, 128, 8>> \o b.body],
+                [cls |-> "length-prefix-huge-2^32-1", stream |-> <<255, 255, 255, 255, 15>> \o b.body],
+                [cls |-> "length-prefix-huge-2^32", stream |-> <<128, 128, 128, 128, 16>> \o b.body]}
+HugeRejected == \A v \in HugeVariants : IsErr(RefDecode(Alg, v.stream, FALSE))
+
 Emit == PrintT(<<"STREAMS", ToJson([alg |-> Alg, out |-> Base.out, ok |-> Base.ok, strictok |-> Base.strictok,
-                                     variants |-> Variants])>>)
+                                     variants |-> Variants \cup HugeVariants])>>)
 
 \* decoder and assembler agree: what the elements append is what the reference decodes
 RefAgrees == LET b == Base
